@@ -10,7 +10,7 @@ M = [
  ('w_superset', 'inference/system_w.py', "    return all(any(a.issubset(b) for a in A) for b in B)", "    return all(any(a.issuperset(b) for a in A) for b in B)", ['C03', 'C11', 'C08']),
  ('w_no_tie_recursion', 'inference/system_w.py', "        for xi_i in xi_i_set & xi_i_prime_set:\n            if partition_index == 0:\n                return False", "        for xi_i in xi_i_set & xi_i_prime_set:\n            return False", ['C03', 'C11']),
  ('mcs_no_remove_supersets', 'inference/optimizer.py', "        xMins_lst: list[list[int]] = remove_supersets(xMins)", "        xMins_lst: list[list[int]] = [list(s) for s in xMins]", ['C15', 'C03', 'C05']),
- ('mcs_no_blocking_helper', 'inference/optimizer.py', "        return_constraints.append(helper_variables_clause)\n", "", ['C15', 'C03', 'C04']),
+ ('mcs_no_blocking_helper', 'inference/optimizer.py', "        return_constraints.append(helper_variables_clause)\n", "", ['C15', 'C03', 'C07']),
  ('lex_max_card', 'inference/lex_inf.py', "        min_len_v = min(len(xi) for xi in mcs_v)", "        min_len_v = max(len(xi) for xi in mcs_v)", ['C04', 'C11']),
  ('lex_all_pairs_again', 'inference/lex_inf_z3.py', "            if better_than_all:\n                return True\n        return False", "            if not better_than_all:\n                return False\n        return True", ['C04', 'C11', 'C08']),
  ('cinf_ge', 'inference/c_inference.py', "            csp.append(GT(eta, mv - mf))", "            csp.append(GE(eta, mv - mf))", ['C05', 'C17', 'C08']),
